@@ -129,10 +129,12 @@ impl<S: VersionStorer> Backend<S> {
         }
     }
 
-    /// Spawn background task to fetch configuration from client
-    fn spawn_fetch_configuration(&self) {
+    /// Spawn background task to fetch configuration from client.
+    /// The returned handle completes once the answer (if any) has been applied.
+    fn spawn_fetch_configuration(&self) -> tokio::task::JoinHandle<()> {
         let client = self.client.clone();
         let config = self.config.clone();
+        let storer = self.storer.clone();
 
         tokio::spawn(async move {
             let items = vec![ConfigurationItem {
@@ -158,6 +160,13 @@ impl<S: VersionStorer> Backend<S> {
                             }
                         };
                         info!("Configuration updated: {:?}", new_config);
+                        // The refresh interval and the prerelease setting live in the storer
+                        if let Some(storer) = &storer {
+                            storer.configure(
+                                new_config.cache.refresh_interval,
+                                new_config.ignore_prerelease,
+                            );
+                        }
                         let mut cfg = config.write().expect("config lock poisoned");
                         *cfg = new_config;
                     }
@@ -167,7 +176,7 @@ impl<S: VersionStorer> Backend<S> {
                     debug!("workspace/configuration request failed: {}", e);
                 }
             }
-        });
+        })
     }
 
     pub fn server_capabilities() -> ServerCapabilities {
@@ -184,7 +193,9 @@ impl<S: VersionStorer> Backend<S> {
         }
     }
 
-    fn spawn_background_refresh(&self) {
+    /// Refresh stale packages once `configured` has completed: `cache.refreshInterval`
+    /// decides which packages are stale.
+    fn spawn_background_refresh(&self, configured: tokio::task::JoinHandle<()>) {
         let Some(storer) = self.storer.clone() else {
             warn!("Storer not available, skipping background refresh");
             return;
@@ -198,6 +209,8 @@ impl<S: VersionStorer> Backend<S> {
             .collect();
 
         tokio::spawn(async move {
+            let _ = configured.await;
+
             let Some(packages) = storer
                 .get_packages_needing_refresh()
                 .inspect_err(|e| error!("Failed to get packages needing refresh: {}", e))
@@ -373,9 +386,9 @@ impl<S: VersionStorer> LanguageServer for Backend<S> {
             .await;
 
         // Request configuration from client via workspace/configuration (non-blocking)
-        self.spawn_fetch_configuration();
+        let configured = self.spawn_fetch_configuration();
 
-        self.spawn_background_refresh();
+        self.spawn_background_refresh(configured);
     }
 
     async fn shutdown(&self) -> Result<()> {
